@@ -864,8 +864,9 @@ HEADER_POOL = [("X-Custom", "1"), ("x-trace-id", "abc-123"), ("Cache-Control", "
                ("Last-Modified", "yesterday"), ("X-Empty", ""), ("Server", "baize"), ("X-\xc0ccent", "v")]
 BAD_HEADERS = [("X-Split", "a\r\nSet-Cookie: evil=1"), ("X-Wide", "中文"), ("Connection", "close"),
                ("Transfer-Encoding", "chunked"), ("X-Nul", "a\0b"), ("Keep-Alive", "timeout=5"), ("X\nY", "v")]
-COOKIE_NAMES = ["sid", "a", "theme", "k;x", "a b", "n=1", "caf\xe9", '"q"', "x,y"]
-COOKIE_VALUES = ["", "1", "abc", "a b", "caf\xe9", 'say "hi"', "a;b", "line\r\nbreak", "back\\slash", "x,y", "\x00"]
+COOKIE_NAMES = ["sid", "a", "theme", "k;x", "a b", "n=1", "caf\xe9", '"q"', "x,y", "sid\n", "tok\r"]
+COOKIE_VALUES = ["", "1", "abc", "a b", "caf\xe9", 'say "hi"', "a;b", "line\r\nbreak", "back\\slash", "x,y", "\x00",
+                 "abc\n", "abc\r", "\n", "tok\n\n"]       # token characters plus trailing line breaks
 CHARSETS = [None, None, "utf-8", "UTF-8", "utf8", "latin-1", "ISO-8859-1", "ascii", "us-ascii"]
 TEXTS = ["", "hello", "caf\xe9", "中文", "line\nbreak", "emoji \U0001f600", "a" * 40, "\xff\xfe"]
 BLOBS = [b"", b"x", b"\x00\xff\x80", b"hello world", bytes(range(20))]
@@ -1018,6 +1019,9 @@ def systematic():
     recs = []
     for status in [200, 204, 299, 404, 599, 999, 100]:
         recs.append(dict(base, kind="empty", status=status))
+    for cv in ("abc\n", "abc\r", "\n"):
+        recs.append(dict(base, kind="empty", cookies=[{"name": "sid", "value": cv}]))
+        recs.append(dict(base, kind="empty", cookies=[{"name": cv if cv.strip() else "k" + cv, "value": "v"}]))
     recs.append(dict(base, kind="empty", headers=[("X-A", "1"), ("x-a", "2"), ("Content-Length", "9")],
                      cookies=[{"name": "sid", "value": "a b"}, {"name": "k;x", "value": "line\r\nbreak", "samesite": "none"}]))
     for cls in ("plain", "html"):
